@@ -195,10 +195,11 @@ def substHtml5Old (T : Tbl) (s : PStr) : PStr := reSub T.particles (htmlRep T) 0
 /-- `SEMICOLON_OPTIONAL_ENTITY_RE.match(s, after)`: some alternative is a prefix of what follows -/
 def legacyPrefix (T : Tbl) (l : PStr) : Bool := T.legacy.any (·.isPrefixOf l)
 
-/-- `_escape_ampersand_a_parser_would_interpret`, on what follows the `&`: `#`; or `ANY_ENTITY_RE` matches; or a name
-    (`ENTITY_NAME_RE`: `[a-zA-Z][-.a-zA-Z0-9]*`, greedy) that is followed by `;`, or is a key of
-    `HTML_ENTITY_TO_CHARACTER`, or begins with a name that needs no semicolon. -/
-def ampNeedsEscape (T : Tbl) (cs : PStr) : Bool :=
+/-- `_escape_ampersand_a_parser_would_interpret` up to its first `return "&amp;"`s, on what follows the `&`: `#`; or
+    `ANY_ENTITY_RE` matches; or a name (`ENTITY_NAME_RE`: `[a-zA-Z][-.a-zA-Z0-9]*`, greedy) that is followed by `;`, or is a
+    key of `HTML_ENTITY_TO_CHARACTER`, or begins with a name that needs no semicolon. (This was the whole decision of the
+    first repair, /repo 3ee7146: `substHtml5Mid`.) -/
+def ampNeedsEscapeMid (T : Tbl) (cs : PStr) : Bool :=
   match cs with
   | [] => false
   | d :: _ =>
@@ -208,6 +209,38 @@ def ampNeedsEscape (T : Tbl) (cs : PStr) : Bool :=
           | 59 :: _ => true
           | _ => false) ||
          (T.toChar.get (cs.take (spanLen isNameChar cs))).isSome || legacyPrefix T cs))
+
+/-- `max(run.rfind("-"), run.rfind("."))`: index of the last `-` or `.` -/
+def lastDashDot : PStr → Option Nat
+  | [] => none
+  | c :: t =>
+    match lastDashDot t with
+    | some q => some (q + 1)
+    | none => if c = 45 || c = 46 then some 0 else none
+
+/-- the second part of the callback: the name runs to the end of the string (which may be the end of the document) and
+    html.parser would give part of it back there — a lone letter (the `&` is swallowed), or a known name before the last
+    `-`/`.` of the run -/
+def eofDanger (T : Tbl) (cs : PStr) : Bool :=
+  match cs with
+  | [] => false
+  | d :: ds =>
+    isAlpha d && (cs.drop (spanLen isNameChar cs)).isEmpty &&
+      (match lastDashDot cs with
+       | none => ds.isEmpty
+       | some q => (T.toChar.get (cs.take q)).isSome)
+
+/-- `_escape_ampersand_a_parser_would_interpret`: should this `&` become `&amp;`? -/
+def ampNeedsEscape (T : Tbl) (cs : PStr) : Bool := ampNeedsEscapeMid T cs || eofDanger T cs
+
+/-- first pass of the first repair -/
+def escapeAmpersandsMid (T : Tbl) : PStr → PStr
+  | [] => []
+  | c :: cs =>
+    if c = 38 && ampNeedsEscapeMid T cs then amp ++ escapeAmpersandsMid T cs else c :: escapeAmpersandsMid T cs
+
+/-- `substitute_html5` after the first repair (/repo 3ee7146), before the end-of-document one -/
+def substHtml5Mid (T : Tbl) (s : PStr) : PStr := reSub T.particles (htmlRep T) 0 (escapeAmpersandsMid T s)
 
 /-- first pass: `AMPERSAND_RE.sub(_escape_ampersand_a_parser_would_interpret, s)` -/
 def escapeAmpersands (T : Tbl) : PStr → PStr
